@@ -72,6 +72,11 @@ def build_alphabet(job):
         add('path', s, 'server')
         add('path', s, config='server')
         add('path', s, config='local')
+    # comma searches and each of their alternatives on its own (a cached list must not be shared between them)
+    for q in (job['search_or'], job['search_or_alt'], job['search_or2']):
+        add('unfold', q)
+        add('find', 'all', q)
+        add('find', 'list', q)
     for q in (q1, q2, job['search3']):
         add('unfold', q)
         add('unfold', q, False, True)
@@ -235,7 +240,10 @@ def setup(jobfile):
                fields1=dict(sid1.fields), query1=Sid('/'.join(parts[:3])).as_query(), overlay=job['overlay_key'] + '=' + job['overlay_val'],
                type_of={s1: sid1.type, s2: Sid(s2).type},
                paths={c: str(sid1.path(c)) for c in pc['cfgs']},
-               missing='/'.join(parts[:-1] + [job['missing_ext']]))
+               missing='/'.join(parts[:-1] + [job['missing_ext']]),
+               search_or='/'.join(parts[:2] + [parts[2] + ',' + job['other_level3']]) + '/*',
+               search_or_alt='/'.join(parts[:2] + [job['other_level3']]) + '/*',
+               search_or2=parts[0] + '/' + job['other_level2'] + ',' + parts[1] + '/*')
     json.dump(job, open(jobfile, 'w'))
     print(json.dumps(dict(setup=True, n=len(L))))
 
